@@ -719,12 +719,13 @@ func RestorePollardFrom(r io.Reader) (int64, *Pollard, error) {
 func (p *Pollard) readOne(n *polNode, r io.Reader) (int64, error) {
 	totalBytes := int64(0)
 
-	// Read from the reader. If we're at EOF, we've finished restoring
-	// the pollard.
+	// Read from the reader.
 	readBytes, err := io.ReadFull(r, n.data[:])
 	if err != nil {
+		// Every node read here was written by writeOne, so running out of
+		// bytes at the start of a node means the stream was cut short.
 		if err == io.EOF {
-			return int64(readBytes), nil
+			err = io.ErrUnexpectedEOF
 		}
 		return totalBytes, err
 	}
